@@ -268,17 +268,32 @@ func checkC12(c C12Case) (o Outcome) {
 			if doCont && exists {
 				st.continuations++
 				got := continueFrom(state.Files(), s, nextInput)
-				key := string(content)
-				want, ok := expectCont[key]
-				if !ok {
-					clean := map[string][]byte{P: content}
-					for os2 := range c.Sessions {
-						if b, e := pre.Get(recordPath(os2)); e && os2 != s {
-							clean[recordPath(os2)] = b
+				// what a directory holding nothing but complete records answers: from the record
+				// that is there or - a start may complete an interrupted save it finds - from any
+				// other state this request saved or found
+				wantFor := func(content []byte) string {
+					key := string(content)
+					want, ok := expectCont[key]
+					if !ok {
+						clean := map[string][]byte{P: content}
+						for os2 := range c.Sessions {
+							if b, e := pre.Get(recordPath(os2)); e && os2 != s {
+								clean[recordPath(os2)] = b
+							}
 						}
+						want = continueFrom(clean, s, nextInput)
+						expectCont[key] = want
 					}
-					want = continueFrom(clean, s, nextInput)
-					expectCont[key] = want
+					return want
+				}
+				want := wantFor(content)
+				for _, v := range valid {
+					if got == want {
+						break
+					}
+					if w := wantFor(v); got == w {
+						want = w
+					}
 				}
 				if got != want {
 					return viol("continuation-differs", "request %d (session %s): after a crash %s a fresh engine answers the next input %q with %s, from the clean record it answers %s (stray files: %v)", k, c.Sessions[s], where, nextInput, got, want, names(state.Files(), dir))
